@@ -204,26 +204,35 @@ Print Assumptions C01_il_examples.
 (* ------------------------------------------------------------------ the compiled programs, composite types
 
    (1) the label discipline of the compiler (pc / pin / rel on the growing program) yields, for every type of the fragment
-   `ilf` (scalars, string, json.Number, interface{}, pointers, slices, nested arbitrarily), a block whose content depends
+   `ilf` (scalars, string, json.Number, interface{}, pointers, slices, fixed arrays, nested arbitrarily), a block whose content depends
    only on its position: compileOps sp t p = p ++ code t (length p), with every jump target of `code` written out as
    base + offset (Dec/Code.v). *)
 Theorem C01_compile_code : forall t, ilf t = true -> forall sp p, compileOps sp t p = (p ++ code t (List.length p))%list.
 Proof. exact compile_code. Qed.
 Print Assumptions C01_compile_code.
 
-(* (2) simulation: for bool, every integer width, float32, float64, string, interface{}, and pointers / slices of those
-   nested arbitrarily, running `compile t` with the IL interpreter (CheckTrailings included) gives the result of the
+(* (2) simulation: for bool, every integer width, float32, float64, string, interface{}, and pointers / slices / fixed
+   arrays of those nested arbitrarily (destination well shaped: an array value holds exactly its N elements; every value is
+   well shaped when the type has no array: C01_shape_noarr), running `compile t` with the IL interpreter (CheckTrailings included) gives the result of the
    tree-level binder - every input (malformed ones included), option set, initial value (hidden slice elements included)
    and hash - unless one of the two answers Unk (interpreter out of fuel / escape validation of skipped text under
    ValidateString, which the tree model leaves open). *)
-Theorem C01_il_sim : forall (h : bytes -> N) (o : opts) t s v, simf t = true ->
+Theorem C01_il_sim : forall (h : bytes -> N) (o : opts) t s v, simf t = true -> shape t v ->
   compat (il_unmarshal h o t s v) (sonic_unmarshal h Jit o t s v).
 Proof. exact il_sim. Qed.
 Print Assumptions C01_il_sim.
 
+Theorem C01_shape_noarr : forall t, noarr t = true -> forall v, shape t v.
+Proof. exact shape_noarr. Qed.
+Print Assumptions C01_shape_noarr.
+
+Theorem C01_shape_zero : forall t, shape t (zero t).
+Proof. exact shape_zero. Qed.
+Print Assumptions C01_shape_zero.
+
 (* (3) hence C01_bind_agree speaks about the compiled program on the common fragment *)
 Theorem C01_il_sim_agree : forall (h : bytes -> N) (o : opts) t s v,
-  simf t = true -> frag t = true -> input_ok o s -> (forall j, parse s = Some j -> guards o j) ->
+  simf t = true -> shape t v -> frag t = true -> input_ok o s -> (forall j, parse s = Some j -> guards o j) ->
   match parse s with
   | Some j => compat (il_unmarshal h o t s v) (std_unmarshal o t s v)
   | None => std_unmarshal o t s v = Err /\
@@ -246,6 +255,25 @@ Theorem C01_il_sim_nonvacuous :
   il_unmarshal h1 opts_default t (b "[[1,2],]") v0 = Err /\ sonic_unmarshal h1 Jit opts_default t (b "[[1,2],]") v0 = Err.
 Proof. repeat split; vm_compute; reflexivity. Qed.
 Print Assumptions C01_il_sim_nonvacuous.
+
+(* fixed arrays: elements decoded in place, missing ones cleared, extra ones skipped, `[]` clears all, a trailing comma
+   after the last decoded element is an error for both (fix b376c30) *)
+Theorem C01_il_sim_arrays_nonvacuous :
+  let t := TArr 2 (TSlice (TArr 1 (TInt I64))) in
+  let v0 := VList [VList [VList [VInt 7] []] [VList [VInt 8] []]; VNil] [] in
+  simf t = true /\ shape t v0 /\
+  il_unmarshal h1 opts_std t (b "[[[1],[2,3]]]") v0 = Ok (VList [VList [VList [VInt 1] []; VList [VInt 2] []] []; VNil] []) /\
+  sonic_unmarshal h1 Jit opts_std t (b "[[[1],[2,3]]]") v0 = Ok (VList [VList [VList [VInt 1] []; VList [VInt 2] []] []; VNil] []) /\
+  il_unmarshal h1 opts_default t (b "[]") v0 = Ok (VList [VNil; VNil] []) /\
+  sonic_unmarshal h1 Jit opts_default t (b "[]") v0 = Ok (VList [VNil; VNil] []) /\
+  il_unmarshal h1 opts_default t (b "[null,null,7,[8]]") v0 = sonic_unmarshal h1 Jit opts_default t (b "[null,null,7,[8]]") v0 /\
+  il_unmarshal h1 opts_default t (b "[null,null,]") v0 = Err /\ sonic_unmarshal h1 Jit opts_default t (b "[null,null,]") v0 = Err.
+Proof.
+  cbv zeta. split; [reflexivity|]. split.
+  { simpl. repeat (split || constructor || reflexivity). }
+  repeat split; vm_compute; reflexivity.
+Qed.
+Print Assumptions C01_il_sim_arrays_nonvacuous.
 
 (* ------------------------------------------------------------------ clauses the faithful model violates
    (each witness is replayed on the real code from corpus/C01 and listed in known_findings.d/C01.json) *)
